@@ -123,18 +123,23 @@ def treeGlweMulPlainAssign (be : BE) (n off : Nat) (res : G) (aSize er ea : Nat)
         (altList [leaf (cnvPrepLeftTmp be n er er), leaf (cnvPrepRightTmp be n ea ea),
           loop cols (.take (dftBytes be n 1 rd) (.alt (leaf (cnvApplyTmp be rd er ea)) (treeBigNormalize be n)))])))
 
-/-- glwe_tensor_apply_tmp_bytes(res, a, b) (docs/fixes/13: the convolution queries receive the accumulator size
-as result size): `res` = the tensor (rank of the inputs, size, radix) -/
+/-- `Module::cnv_pairwise_apply_dft_tmp_bytes(x, y, a, b)` as the delegate of poulpy-hal answers it: it forwards its
+first two arguments swapped, so the value passed in the `cnv_offset` slot (`x`) is the result size the back end sees
+and `y` is ignored.  (Not repairable without editing the pinned suite, whose own call compensates for the swap.) -/
+def cnvPairwiseQuery (be : BE) (x _y a b : Nat) : Nat := cnvPairwiseTmp be x a b
+
+/-- glwe_tensor_apply_tmp_bytes(res, a, b) (docs/fixes/13: `cnv_apply_dft_tmp_bytes` receives the accumulator size as
+result size; the pairwise query is still answered for `cnv_offset = min(a.size, b.size)` result limbs, see
+`cnvPairwiseQuery`): `res` = the tensor (rank of the inputs, size, radix) -/
 def tbGlweTensorApply (be : BE) (n : Nat) (res a : G) (bSize : Nat) : Nat :=
   let cols := res.rank + 1
-  let dd := limbBoundWorst (a.size + bSize) res.size res.b2k a.b2k
-  let off := dd
+  let off := min a.size bSize
   let lvl0 := cnvBytes be n cols a.size + cnvBytes be n cols bSize
   let lvl1 := max (cnvPrepLeftTmp be n a.size a.size) (cnvPrepRightTmp be n bSize bSize)
   let dd := limbBoundWorst (a.size + bSize) res.size res.b2k a.b2k
   let tail := vecBytes n 1 res.size + bigNormTmp be n
-  let lvl2a := dftBytes be n 1 dd + max (cnvApplyTmp be off a.size bSize) tail
-  let lvl2b := dftBytes be n 1 dd + max (cnvPairwiseTmp be off a.size bSize) tail
+  let lvl2a := dftBytes be n 1 dd + max (cnvApplyTmp be dd a.size bSize) tail
+  let lvl2b := dftBytes be n 1 dd + max (cnvPairwiseQuery be off dd a.size bSize) tail
   lvl0 + max lvl1 (max lvl2a lvl2b)
 
 /-- `glwe_tensor_apply` / `glwe_tensor_apply_add_assign` (same takes): per diagonal term and per pair an
@@ -151,7 +156,7 @@ def treeGlweTensorApply (be : BE) (n off : Nat) (res a : G) (bSize ea eb : Nat) 
           loop cols (.take (dftBytes be n 1 dd) (.alt (leaf (cnvApplyTmp be dd ea eb)) tail)),
           loop (cols * (cols - 1) / 2) (.take (dftBytes be n 1 dd) (.alt (leaf (cnvPairwiseTmp be dd ea eb)) tail))])))
 
-/-- glwe_tensor_apply_tmp_bytes before docs/fixes/13: both convolution queries see `min(a.size, b.size)` as result size -/
+/-- glwe_tensor_apply_tmp_bytes before docs/fixes/13: the diagonal query too sees `min(a.size, b.size)` as result size -/
 def tbGlweTensorApplyOld (be : BE) (n : Nat) (res a : G) (bSize : Nat) : Nat :=
   let cols := res.rank + 1
   let off := min a.size bSize
@@ -163,7 +168,8 @@ def tbGlweTensorApplyOld (be : BE) (n : Nat) (res a : G) (bSize : Nat) : Nat :=
   let lvl2b := dftBytes be n 1 dd + max (cnvPairwiseTmp be off a.size bSize) tail
   lvl0 + max lvl1 (max lvl2a lvl2b)
 
-/-- glwe_tensor_square_apply_tmp_bytes(res, a) (docs/fixes/13) -/
+/-- glwe_tensor_square_apply_tmp_bytes(res, a) (docs/fixes/13 for the diagonal query; pairwise query as in `cnvPairwiseQuery`,
+`cnv_offset = a.size`) -/
 def tbGlweTensorSquare (be : BE) (n : Nat) (res a : G) : Nat :=
   let cols := res.rank + 1
   let lvl0 := cnvBytes be n cols a.size + cnvBytes be n cols a.size
@@ -171,7 +177,7 @@ def tbGlweTensorSquare (be : BE) (n : Nat) (res a : G) : Nat :=
   let lvl1 := cnvPrepSelfTmp be n a.size a.size
   let dd := limbBoundWorst (2 * a.size) res.size res.b2k a.b2k
   let lvl2a := dftBytes be n 1 dd + max (cnvApplyTmp be dd a.size a.size) (bigNormTmp be n)
-  let lvl2b := dftBytes be n 1 dd + max (cnvPairwiseTmp be dd a.size a.size) (bigNormTmp be n)
+  let lvl2b := dftBytes be n 1 dd + max (cnvPairwiseQuery be a.size dd a.size a.size) (bigNormTmp be n)
   lvl0 + cache + max lvl1 (max lvl2a lvl2b)
 
 /-- `glwe_tensor_square_apply`: the self-preparation runs before the diagonal cache is taken -/
